@@ -142,7 +142,8 @@ func checkC07(c C07Case) Result {
 			curLine := 1 + strings.Count(text[:off], "\n")
 			foreign := false
 			for l := range errLines {
-				if l != curLine && !loneIdentLine(text, l) {
+				_ = curLine
+				if !loneIdentLine(text, l) {
 					foreign = true
 				}
 			}
